@@ -288,4 +288,17 @@ theorem toProto_header (env : Env) (p : FileP) :
   · simp [toProto, build]
   · intro h; simp [toProto, build, fileEdition, h]
 
+/-! ### the hypotheses are satisfiable -/
+
+def exCtx : Ctx := mkCtx {} untypedWitness
+def exField : FieldP := { name := str "n", number := some 1, label := some 1, type := 11, typeName := some (str ".w.N") }
+def exPar : GoFeatures := fileFeatures untypedWitness
+set_option maxRecDepth 20000 in
+/-- the hypotheses of `toProto_buildField_partial` are satisfiable by a non-trivial field: a message-typed field under
+inherited DELIMITED encoding (built with Kind group, written back as TYPE_MESSAGE) -/
+example : toProtoField 9 (buildField exCtx exPar (str "w.M") false 0 0 exField) = exField :=
+  toProto_buildField_partial exCtx exPar (str "w.M") false 0 0 exField 9
+    (by decide) (by decide) (by decide) (by decide) (by decide) (by decide) (by intro _; rfl) (by intro h; cases h)
+    (by decide) (by decide) (by intro _; rfl) (by decide)
+
 end C34
